@@ -901,6 +901,18 @@ func (w *Reconciler) handleFinishFinalizer(
 		if err != nil {
 			return rj, err
 		}
+
+		// The finalizer is only removed once all tasks are gone, and the cache may not have
+		// observed a task at all, so its absence is always confirmed with the apiserver here.
+		if task == nil {
+			task, err = taskMgr.Client().Get(ctx, taskRef.Name)
+			if kerrors.IsNotFound(err) {
+				task, err = nil, nil
+			}
+			if err != nil {
+				return rj, errors.Wrapf(err, "cannot get task %v", taskRef.Name)
+			}
+		}
 		if task != nil {
 			tasks = append(tasks, task)
 		}
